@@ -582,6 +582,29 @@ theorem sorting_writer_correct_history {R : Type} (cmp : R → R → Int) (rank 
   rw [(cutRuns_partition h1 ops).1] at this
   exact this
 
+/-- … and when `WriteRowGroup(merged)` goes through a segment plan instead of the row readers (parts
+    of the temporary row groups that do not overlap in key space are copied, overlapping parts are
+    merged): for every plan that is `Good` in the sense of C09 (`refined_plan_is_merge`) over the
+    sorted runs of ANY call history, the output is again a sorted permutation of the rows written.
+    (That the cuts computed from the page indexes form a `Good` plan is C09's
+    `cuts_form_good_plan_partial` + its correspondence check.) -/
+theorem sorting_writer_correct_plan {R : Type} (cmp : R → R → Int) (rank : R → Int) (hr : Ranked cmp rank)
+    (sortRun : List R → List R)
+    (hsort : ∀ run, (sortRun run).Perm run ∧ (sortRun run).Pairwise (fun a b => cmp a b ≤ 0))
+    {maxRows : Nat} (h1 : 1 ≤ maxRows) (ops : List (SWOp R)) {k : Nat}
+    (segments : List (List (List PqModel.Merge.Row))) (outs : List (List PqModel.Merge.Row))
+    (hgood : PqModel.Merge.Plan.Good (k := k) segments outs)
+    (hjoin : PqModel.Merge.joinSegments k segments = PqModel.Merge.tagInputs (keysOf rank ((cutRuns maxRows ops).map sortRun))) :
+    let out := untag ((cutRuns maxRows ops).map sortRun) outs.flatten
+    out.Perm (written ops) ∧ out.Pairwise (fun a b => cmp a b ≤ 0) := by
+  intro out
+  have hm := PqModel.Props.C09.refined_plan_is_merge segments outs hgood
+  rw [hjoin] at hm
+  obtain ⟨p, q⟩ := untag_isMerge rank ((cutRuns maxRows ops).map sortRun) hm
+  refine ⟨?_, q.imp (fun h => (hr.le_iff _ _).mpr h)⟩
+  have := p.trans (perm_flatten_map sortRun (fun l => (hsort l).1) (cutRuns maxRows ops))
+  rwa [(cutRuns_partition h1 ops).1] at this
+
 -- NOT modelled: the typed/reflection ingestion into the buffers (C03), the temporary file encoding
 -- (C01: each run is one row group of a file written and read back by the generic writer/reader), the
 -- computation of the segment cuts of `WriteRowGroup(merged)` from indexes (C09, L2 there).
